@@ -191,11 +191,7 @@ def e2eStep (st : St) (kind fab mode id cats treq flag paths emit out : String) 
       let model := s!"- # - # {joinOr " | " ((reportEvents ctx st.node true paths queue).map fmtEvOut)}"
       let specL := expectedEvents ctx st.node true paths queue
       let spec := s!"- # - # {joinOr " | " (specL.map fmtEvOut)}"
-      -- the same list without the statuses of concrete paths naming an absent event
-      let specSilent := s!"- # - # {joinOr " | " ((specL.filter fun o =>
-          match o with | .status _ .unsupportedEvent => false | _ => true).map fmtEvOut)}"
-      if inScope && spec ≠ out then
-        (st, if specSilent = out then s!"ORA absent-event-silent spec=[{spec}]" else s!"ORA spec=[{spec}]")
+      if inScope && spec ≠ out then (st, s!"ORA spec=[{spec}]")
       else if model = out then (st, "ok") else (st, s!"DIS {model}")
     else
       let letter := if kind = "w" then "W" else if kind = "i" then "I" else "R"
